@@ -723,6 +723,10 @@ FIXED_CASES = [
     ("<b><b><b><b><b>x</b></b></b></b></b>y", None, False, True),           # Noah's ark
     ("<a><div><a>", None, False, True),
     ("<b><i><u><div><div><div><div><div><div><div><div><div></b></div>x", None, False, True),  # bookmark
+    # the three WHATWG deviations repaired in /repo (6523d65, 0929291, 5140af5): must AGREE with the Spec now
+    ("<table><button><button>", None, False, True),                        # button token was dropped
+    ("<b><center><li><div><u><div><div><div><p><i><address><blockquote></b>y", None, False, True),  # bookmark index
+    ("<table><p><li>", None, False, True),                                 # foster parenting switched off
 ]
 
 # inputs on which a back end deviates from the intended common semantics (= the model); printed with
